@@ -13,8 +13,9 @@ EXPLANATION = (
     ' equal to whatever it is compared with, not}: Ok only after the write, key = namespace argument, value = postcard '
     'encoding of the policy argument; get_download_policy reads the same table by the namespace argument, decodes the '
     'stored bytes and defaults to EverythingExcept([]); the table has no other writer besides remove_replica and '
-    "migrations; (R3) FilterKind's Display and FromStr use the same tag set and the same tag<->variant pairing. NOT "
-    'decided: text round trip for all byte strings (hex/utf8 codecs trusted).'
+    "migrations; (R3) FilterKind's Display and FromStr use the same tag set and the same tag<->variant pairing, and the Display -> "
+    'FromStr round trip is evaluated on concrete sample filters (payloads containing the separator, non-UTF-8 payloads). '
+    'NOT decided: text round trip for all byte strings (hex/utf8 codecs trusted).'
 )
 ASSUMPTIONS = ["postcard encode/decode are inverse (trusted)", "redb tables are identified by their key/value types"]
 
